@@ -124,7 +124,7 @@ def _last_instance_key(merged_key, channel=False):
 
 def check_run(P: str, circuit, cfg: SimConfig, reps: int, ctx, max_leaves: int,
               entry: str = "run", channel_keys=(), ref_circuit=None, param_resolver=None, stats=None,
-              int_seed=None) -> int:
+              int_seed=None, sweep_points: int = 1) -> int:
     """Entry points run / run_sweep / sample: the joint distribution of Result.records."""
     qubits = sorted(circuit.all_qubits())
     ref_c = ref_circuit if ref_circuit is not None else circuit
@@ -151,6 +151,10 @@ def check_run(P: str, circuit, cfg: SimConfig, reps: int, ctx, max_leaves: int,
                                param_resolver=param_resolver)
         sim = cfg.make(seed)
         if entry == "run_sweep":
+            if sweep_points > 1:
+                # several sweep points over a symbol the circuit does not use: independent samples, all returned
+                return sim.run_sweep(circuit, params=cirq.Points("unused_symbol", list(range(sweep_points))),
+                                     repetitions=reps)
             return sim.run_sweep(circuit, params=param_resolver or cirq.ParamResolver({}), repetitions=reps)[0]
         return sim.run(circuit, param_resolver=param_resolver, repetitions=reps)
 
@@ -175,7 +179,13 @@ def check_run(P: str, circuit, cfg: SimConfig, reps: int, ctx, max_leaves: int,
     w_sim: Dict[Tuple, float] = {}
     total = 0.0
     for w, result, _trace in leaves:
-        keys = tuple(records_key_from_result(result, r, channel_keys) for r in range(reps))
+        if isinstance(result, (list, tuple)):
+            if len(result) != sweep_points:
+                raise Violation(f"{P}-DIST", f"[{cfg.describe()}] run_sweep over {sweep_points} points returned "
+                                             f"{len(result)} results\n{circuit}")
+            keys = tuple(records_key_from_result(res_i, r, channel_keys) for res_i in result for r in range(reps))
+        else:
+            keys = tuple(records_key_from_result(result, r, channel_keys) for r in range(reps))
         w_sim[keys] = w_sim.get(keys, 0.0) + w
         total += w
     n = len(leaves)
